@@ -651,6 +651,7 @@ func TestC13(t *testing.T) {
 		if job%nsh == shard {
 			c13overflowFailDrain(rep, seed, job)
 			c13stalledReaderGoesOn(rep, seed, job)
+			c13outage(rep, seed, job)
 		}
 	}
 	gomavlib.VerifSetHook(nil)
@@ -722,6 +723,67 @@ func c13overflowFailDrain(rep *vh.Report, seed uint64, idx int) {
 	} else if !eqU64(got, want) {
 		rep.Violation("what=silent-dead:overflow-fail-drain ep=custom", fmt.Sprintf("after an overflow whose backlog was drained by failing writes (%v) the channel is open with an empty queue, yet %d of %d later items came out", werr, len(got), len(want)),
 			map[string]interface{}{"channels": k, "victim": v, "written_while_stalled": nOver, "backlog_now": n.chans[v].VerifBacklog(), "got": got, "want": want})
+	}
+	if !safeClose(rep, n.node) {
+		return
+	}
+	<-n.cons.done
+}
+
+// c13outage: an outage - every write on one link fails, without interruption, for several write timeouts (WriteTimeout
+// 80 ms configured; custom transports know no deadlines themselves) while the application keeps writing; then the link
+// works again. The channel was never reported closed: what is written afterwards comes out.
+func c13outage(rep *vh.Report, seed uint64, idx int) {
+	if aborted() {
+		return
+	}
+	r := vh.Sub(seed, fmt.Sprintf("c13-outage-%d", idx))
+	hookReset(r.U64(), false, false)
+	c13WriteTimeout = 80 * time.Millisecond
+	defer func() { c13WriteTimeout = 0 }()
+	k := 1 + r.Intn(2)
+	n := c13start(rep, k, false, false)
+	if n == nil {
+		return
+	}
+	const fam = 0xD7
+	v := r.Intn(k)
+	tr := n.trs[v]
+	_ = n.node.WriteMessageAll(&MessageVfUid{Uid: uint64(fam)<<56 | 1})
+	tr.WaitWrites(1, 300*time.Millisecond)
+	werr := []error{errWrite, os.ErrDeadlineExceeded, syscall.EPIPE}[idx%3]
+	tr.FailWriteAt(tr.WriteCalls()+1, werr, true)
+	start := time.Now()
+	for i := 0; time.Since(start) < 4*c13WriteTimeout; i++ {
+		_ = n.node.WriteMessageAll(&MessageVfUid{Uid: uint64(fam)<<56 | uint64(100+i)})
+		time.Sleep(4 * time.Millisecond)
+	}
+	tr.StopFailing()
+	closed := func() bool {
+		for _, ci := range n.cons.allChannels() {
+			if sn := n.cons.snapshot(ci); sn.Tr == tr && sn.State == 2 {
+				return true
+			}
+		}
+		return false
+	}
+	var want []uint64
+	for i := 0; i < 10; i++ {
+		uid := uint64(fam+1)<<56 | uint64(i+1)
+		want = append(want, uid)
+		_ = n.node.WriteMessageAll(&MessageVfUid{Uid: uid})
+		time.Sleep(time.Millisecond)
+	}
+	waitFor(func() bool { acc, _ := wireUIDs(tr, fam+1); return len(acc) >= len(want) || closed() }, func() int64 { return int64(tr.WriteCalls()) + n.cons.nEvents() }, 600*time.Millisecond)
+	got, _ := wireUIDs(tr, fam+1)
+	rep.Eval(1)
+	rep.Count("outage_runs", 1)
+	rep.Distinct("outage", idx, k, v)
+	if closed() {
+		rep.Count("outage_runs_closed", 1)
+	} else if !eqU64(got, want) {
+		rep.Violation("what=silent-dead:outage ep=custom", fmt.Sprintf("after an outage of %v (every write failing with %v, write timeout %v) the channel is still open, the link works again, yet %d of %d later items came out", 4*80*time.Millisecond, werr, 80*time.Millisecond, len(got), len(want)),
+			map[string]interface{}{"channels": k, "victim": v, "got": got, "want": want, "backlog": n.chans[v].VerifBacklog()})
 	}
 	if !safeClose(rep, n.node) {
 		return
